@@ -296,6 +296,38 @@ def op_skeleton(p, f, avx):
     return c
 
 
+def bk7(p, res):
+    """AVX kernels that exist in an in-place (`*_assign_avx*`) and an out-of-place form compute the same map on the same lanes: the two forms use the
+    same set of arithmetic / logic / compare intrinsics (loads, stores and constant set-ups ignored; an accumulate-capable const-generic twin may add)"""
+    fns = {f.name: f for f in p.lib_fns() if f.uid.startswith("poulpy_cpu_avx") and f.tf and f.kind != "Closure"}
+
+    def intr(f):
+        out = set()
+        for bi, t in f.calls():
+            nm = (f.callee_def(t) or {}).get("n", "")
+            if nm.startswith("_mm") and not re.search(r"load|store|set1|setzero|cvtsi|castsi|undefined|stream", nm):
+                out.add(nm)
+        return out
+    n = 0
+    for nm, f in sorted(fns.items()):
+        m = re.match(r"(.*)_assign(_avx.*)$", nm)
+        if not m or (m.group(1) + m.group(2)) not in fns:
+            continue
+        twin = fns[m.group(1) + m.group(2)]
+        n += 1
+        a, b = intr(f), intr(twin)
+        # a const-generic twin (`<const OVERWRITE: bool>`) also accumulates into its result
+        extra = {"_mm256_add_epi64", "_mm256_add_pd"} if twin.generics else set()
+        only_a, only_b = (a - b), (b - a) - extra
+        if only_a or only_b:
+            res.bad("BK-7", f.pretty, "intrinsic-set-differs:%s" % ",".join(sorted(only_a | only_b)),
+                    "%s and its out-of-place twin %s do not apply the same vector operations: %s only in the in-place form, %s only in the out-of-place form - the two forms (and the reference kernel both stand for) compute different values on some lanes"
+                    % (f.pretty, twin.name, sorted(only_a) or "none", sorted(only_b) or "none"), site=f.where())
+        else:
+            res.ok("BK-7", {"in_place": nm, "out_of_place": twin.name, "intrinsics": len(a)} if n % 6 == 1 else None)
+    return n
+
+
 def bk6(p, res):
     """normalisation step kernels: per `lsh == 0` / `lsh != 0` branch the AVX kernel applies get_digit / get_carry as often as the Ref kernel"""
     n = 0
@@ -426,6 +458,7 @@ def run(res, tier):
     res.rule("BK-3", "vec_znx_fill_uniform / fill_normal / add_normal / big_add_normal reach one sampling function per family; sampling primitives make no backend-dispatched call")
     res.rule("BK-4", "small / FFT64-big / NTT120-big siblings agree on the limb-coverage verdict")
     res.rule("BK-5", "target_feature kernels with a `len >> k` trip count have a scalar tail, a fallback to a *_ref kernel, or an explicit multiple-of-lanes check")
+    res.rule("BK-7", "an AVX kernel's in-place (`*_assign_avx*`) and out-of-place forms use the same set of arithmetic / logic / compare intrinsics (loads, stores, constant set-ups ignored; a const-generic accumulate twin may add)")
     res.rule("BK-6", "AVX normalisation step kernels: (get_digit, get_carry) applications per lsh branch equal those of the *_ref twin")
     res.assumptions = ["kernel arithmetic inside matching twins is not compared", "FFT64 vs NTT120 numerical agreement is not decided"]
     cfgs = ["avx-dev"] if tier == "quick" else ["avx-dev", "avx-nodbg"]
@@ -448,4 +481,6 @@ def run(res, tier):
         res.floor("BK-5", "SIMD kernels with length-derived trip counts", n5, 25)
         n6 = bk6(p, res)
         res.floor("BK-6", "normalisation kernel twins", n6, 8)
+        n7 = bk7(p, res)
+        res.floor("BK-7", "in-place / out-of-place AVX kernel pairs", n7, 15, ref_min=0)
         res.fn_count += n1 + n2 + n5 + n6
